@@ -131,14 +131,20 @@ class SetRef(Ext):
         return self.content()[nm(x)]
 
     def sym_inplace(self, eng, op, other):
-        if op != "BitOr":
-            return NotImplemented
-        self.heap.H = z3.Store(self.heap.H, self.ref, union(eng, self.content(), set_content(eng, other)))
-        return self
+        if op == "BitOr":
+            self.heap.H = z3.Store(self.heap.H, self.ref, union(eng, self.content(), set_content(eng, other)))
+            return self
+        if op in ("Sub", "BitAnd", "BitXor"):
+            self.heap.H = z3.Store(self.heap.H, self.ref, setop(eng, self.content(), set_content(eng, other), op))
+            return self
+        return NotImplemented
 
     def sym_binop(self, eng, op, other, reflected):
         if op == "BitOr":
             return self.heap.alloc(eng, union(eng, self.content(), set_content(eng, other)))
+        if op in ("Sub", "BitAnd", "BitXor"):
+            a, b = (set_content(eng, other), self.content()) if reflected else (self.content(), set_content(eng, other))
+            return self.heap.alloc(eng, setop(eng, a, b, op))
         raise Unsupported("set operator %s" % op)
 
     def sym_eq(self, eng, other):
@@ -161,6 +167,15 @@ class SetRef(Ext):
 
     def loop_snapshot(self, eng):
         return SetSnapshot(self.heap, self.ref, self.content())
+
+
+def setop(eng, a, b, op):
+    """a | b, a & b, a - b as a fresh array with a quantified definition"""
+    u = eng.fresh("S", NSet)
+    k = z3.Const("ks", Name)
+    body = {"BitOr": z3.Or(a[k], b[k]), "BitAnd": z3.And(a[k], b[k]), "Sub": z3.And(a[k], z3.Not(b[k])), "BitXor": z3.Xor(a[k], b[k])}[op]
+    eng.assume(z3.ForAll([k], u[k] == body))
+    return u
 
 
 def union(eng, a, b):
@@ -381,7 +396,25 @@ class CanonSet(Ext):
             return stub(remove)
         if name == "copy":
             return stub(lambda eng: CanonSetValue(st.C))
+        if name in ("difference_update", "update", "intersection_update"):
+            op = {"difference_update": "Sub", "update": "BitOr", "intersection_update": "BitAnd"}[name]
+
+            def upd(eng, other):
+                st.C = setop(eng, st.C, set_content(eng, other), op)
+            return stub(upd)
         raise Unsupported("set method %s on canonical set" % name)
+
+    def sym_inplace(self, eng, op, other):
+        if op in ("Sub", "BitOr", "BitAnd", "BitXor"):
+            self.st.C = setop(eng, self.st.C, set_content(eng, other), op)
+            return self
+        return NotImplemented
+
+    def sym_binop(self, eng, op, other, reflected):
+        if op in ("Sub", "BitOr", "BitAnd", "BitXor"):
+            a, b = (set_content(eng, other), self.st.C) if reflected else (self.st.C, set_content(eng, other))
+            return self.st.heap.alloc(eng, setop(eng, a, b, op))
+        raise Unsupported("set operator %s on canonical set" % op)
 
     def loop_snapshot(self, eng):
         outer = self
